@@ -116,7 +116,7 @@ fn short(x: &[f64]) -> Vec<f64> {
 }
 
 pub fn run(run: &Run) {
-    run.rule("logistic: f32 lattice in ±745 in increasing order (every point thorough, every 16th quick), range, reflection and monotonicity on consecutive points; logit∘logistic on an f32 lattice of [0,1], rejection outside; softmax: every vector of length 1..=5 over {-1e4,-745,-1,0,1,709,710,1e4} plus shifts and structured vectors up to length 1000; Box–Cox lattice x × λ (incl. |λ|<1e-8) × shifts; binom_coeff on all 0≤k≤n≤67 and all n≤4000,k≤32 with C(n,k)<2^64 against a u128 Pascal triangle; every case distinct and non-trivial");
+    run.rule("logistic: f32 lattice in ±745 in increasing order (every point thorough, every 16th quick), range, reflection and monotonicity on consecutive points; logistic∘logit on an f32 lattice of [0,1] and logit∘logistic on an f32 lattice of [-700,20], rejection outside; softmax: every vector of length 1..=5 over {-1e4,-745,-1,0,1,709,710,1e4} plus shifts and structured vectors up to length 1000; Box–Cox lattice x × λ (incl. |λ|<1e-8) × shifts; binom_coeff on all 0≤k≤n≤67 and all n≤4000,k≤32 with C(n,k)<2^64 against a u128 Pascal triangle; every case distinct and non-trivial");
     let stride: u32 = if run.thorough() { 1 } else { 16 };
     let offset = (run.seed % stride as u64) as u32;
     if !run.thorough() {
@@ -167,6 +167,38 @@ pub fn run(run: &Run) {
         run.oks(n);
         run.nontrivial(n);
     });
+    // the other composition: logit(logistic(x)) = x wherever logistic(x) is representable away from
+    // 0 and 1 — all the way down the lower tail (logistic(x) ≈ e^x is an ordinary f64 to x = -708),
+    // and up to x = 20 (beyond, 1 - logistic(x) is lost to rounding: allowance 8u·e^x)
+    {
+        let lo = 20.0f32.to_bits();
+        let hi = 700.0f32.to_bits();
+        let tiny = 1e-6f32.to_bits();
+        let blocks: Vec<(u32, u32, bool)> = (tiny..=hi).step_by(1 << 16).map(|b| (b, hi, true)).chain((tiny..=lo).step_by(1 << 16).map(|b| (b, lo, false))).collect();
+        blocks.par_iter().for_each(|&(b0, top, neg)| {
+            let end = b0.saturating_add((1 << 16) - 1).min(top);
+            let mut b = b0 + (offset.wrapping_sub(b0) % pstride);
+            let mut n = 0u64;
+            while b <= end {
+                let x = if neg { -(f32::from_bits(b) as f64) } else { f32::from_bits(b) as f64 };
+                match guard(|| logit(logistic(x))) {
+                    Ok(r) => {
+                        let tol = 1e-13 * x.abs().max(1.0) + 8.0 * U * x.exp();
+                        if !((r - x).abs() <= tol) {
+                            run.violate("logit/does-not-invert-logistic", || format!("logit(logistic({:e})) = {:e} (logistic = {:e})", x, r, logistic(x)));
+                        }
+                    }
+                    Err(e) => run.violate("logit/panic-in-domain", || format!("logit(logistic({:e})) panicked: {}", x, e)),
+                }
+                n += 1;
+                b += pstride;
+            }
+            run.cases(n);
+            run.trs(2 * n);
+            run.oks(n);
+            run.nontrivial(n);
+        });
+    }
     for &p in &[-1e-300, -0.5, -1.0, 1.0 + 2.3e-16, 1.5, 1e300, f64::NAN, f64::INFINITY, f64::NEG_INFINITY, -5e-324] {
         run.case();
         run.tr();
